@@ -21,6 +21,20 @@ def main():
     ids = sys.argv[1:] or sorted(p.name for p in (VERIF / "seeded").iterdir() if p.is_dir())
     out_path = VERIF / "seeded" / "RESULTS.json"
     results = json.loads(out_path.read_text()) if out_path.exists() else {}
+    # the checks rewrite evidence/<id>.json on every run; what they write under a seeded change must not stay behind
+    import shutil
+    import tempfile
+    keep = Path(tempfile.mkdtemp(prefix="rattrv_evidence_"))
+    shutil.copytree(VERIF / "evidence", keep / "evidence")
+    try:
+        _run(ids, out_path, results)
+    finally:
+        shutil.rmtree(VERIF / "evidence", ignore_errors=True)
+        shutil.copytree(keep / "evidence", VERIF / "evidence")
+        shutil.rmtree(keep, ignore_errors=True)
+
+
+def _run(ids, out_path, results):
     assert sh("git", "-C", REPO, "status", "--porcelain", "--untracked-files=no").stdout.strip() in ("", "M rattr/_version.py"), "repo not clean"
     for mid in ids:
         prop = mid.split("-")[0]
